@@ -7,6 +7,9 @@ use basset::hub::ExecuteMsg as HubExec;
 pub struct C06 {
     /// pool totals stored by the hub's last recognition (State right after the last pricing tx)
     rec: (u128, u128),
+    /// the hub's liquid balance right after the last successful withdrawal: everything above it has arrived since
+    /// (kept by the checker itself, not read back from the hub's `prev_hub_balance`)
+    accounted: u128,
     nontrivial: bool,
 }
 
@@ -32,7 +35,7 @@ pub fn prop() -> HistProp {
         cfgs: cfg_strategy,
         quick: 4000,
         thorough: 30000,
-        mk: |_, _, o| Box::new(C06 { rec: (o.state.total_bond_bsei_amount.u128(), o.state.total_bond_stsei_amount.u128()), nontrivial: false }),
+        mk: |_, _, o| Box::new(C06 { rec: (o.state.total_bond_bsei_amount.u128(), o.state.total_bond_stsei_amount.u128()), accounted: o.bank_of(HUB, USEI), nontrivial: false }),
         extra: Some((4, |_| release_scenario_strategy(cfg_strategy()))),
         many_batches: 1,
         zero_arrival: 1,
@@ -43,10 +46,34 @@ fn v(sig: &str, detail: String) -> Violation {
     Violation::new(ID, format!("{}/{}", ID, sig), detail)
 }
 
+impl C06 {
+    /// the baseline against which arrivals (and therefore unbonding losses) are measured moves only at a withdrawal
+    fn track_accounted(&mut self, cx: &StepCx, out: &mut CaseResult) -> bool {
+        if cx.step.ok() && matches!(cx.step.rop, ROp::Withdraw { .. }) {
+            self.accounted = cx.o1.bank_of(HUB, USEI);
+        }
+        if cx.o1.state.prev_hub_balance.u128() != self.accounted {
+            out.fail(v(
+                "accounted-balance-drift",
+                format!(
+                    "after {}: the hub records {} as already accounted for, but its balance right after the last successful withdrawal was {}: the next release will mis-measure what arrived (and so the unbonding loss) by the difference",
+                    cx.step.desc(), cx.o1.state.prev_hub_balance, self.accounted
+                ),
+            ));
+            return false;
+        }
+        true
+    }
+}
+
 impl Checker for C06 {
     fn step(&mut self, cx: &StepCx, out: &mut CaseResult) {
         let (o0, o1, step) = (cx.o0, cx.o1, cx.step);
         let name = step.rop.name();
+        let accounted_before = self.accounted;
+        if !self.track_accounted(cx, out) {
+            return;
+        }
         // ---- recognition happens first: a pricing transaction books the synced view, then applies its own delta
         if step.ok() && !step.rop.is_env() && o0.delegated > 0 && o0.books() > 0 {
             let (vb0, vs0) = (o0.state.total_bond_bsei_amount.u128(), o0.state.total_bond_stsei_amount.u128());
@@ -159,7 +186,7 @@ impl Checker for C06 {
             }
             let group = release_group(o0, o1);
             if !group.is_empty() {
-                let arrived = o0.bank_of(HUB, USEI).saturating_sub(o0.state.prev_hub_balance.u128());
+                let arrived = o0.bank_of(HUB, USEI).saturating_sub(accounted_before);
                 let mut total_b: u128 = 0;
                 for h in &group {
                     let (x, y) = batch_coins(h);
